@@ -142,6 +142,7 @@ func builtinSym(s string) bool {
 }
 
 type Obligation struct {
+	instLevel int // 0: goal-directed instances only; 1: also witness constants / index terms for assumptions
 	Fn      string // function (verification unit)
 	Name    string // stable obligation name
 	Kind    string
@@ -635,6 +636,35 @@ func (o *Obligation) SMT(withModel bool) string {
 				wconsts = append(wconsts, skc{it.Name, it.Sort})
 			}
 		}
+		// ground index terms: X in s[off+X] occurring in the kept facts and the goal (for example the element picked
+		// by a random index or the last element before a truncation)
+		if o.instLevel >= 1 {
+			seenIdx := map[string]bool{}
+			var walkIdx func(t *Term)
+			walkIdx = func(t *Term) {
+				if t == nil || len(seenIdx) > 10 {
+					return
+				}
+				if t.Op == "bvadd" && len(t.Args) == 2 && t.Args[0].Op == "s.off" && t.Args[1].Sort == BV(64) && !t.Args[1].IsLit() {
+					s := t.Args[1].String()
+					if !seenIdx[s] && !strings.Contains(s, " q.") && !strings.Contains(s, "(q.") && !strings.HasPrefix(s, "q.") && len(s) < 200 {
+						seenIdx[s] = true
+						wconsts = append(wconsts, skc{s, BV(64)})
+					}
+				}
+				if t.Op == "forall" || t.Op == "exists" {
+					return
+				}
+				for _, a := range t.Args {
+					walkIdx(a)
+				}
+			}
+			for i, it := range items {
+				if keep[i] && it.Assert != nil && !hasQuant(it.Assert) {
+					walkIdx(it.Assert)
+				}
+			}
+		}
 		var iconsts []skc // constants introduced by instances of the goal's universals
 		m := 0
 		for _, u := range univ {
@@ -694,6 +724,14 @@ func (o *Obligation) SMT(withModel bool) string {
 		var sink []skc
 		n := 0
 		targets := append(append([]skc{}, gconsts...), iconsts...)
+		// a few witness-like constants / index terms as well (kept small: every universal gets an instance per target)
+		if o.instLevel >= 1 {
+			for i, w := range wconsts {
+				if i < 10 {
+					targets = append(targets, w)
+				}
+			}
+		}
 		for i, it := range items {
 			if !keep[i] || it.Assert == nil || n > 300 || len(targets) == 0 {
 				continue
@@ -1020,14 +1058,34 @@ func (o *Obligation) Solve(timeoutS int, keep bool) {
 	if os.Getenv("GOWP_NO_CVC5") != "" {
 		race = solvers[:2]
 	}
-	ch := make(chan solveResult, len(race))
+	// a second variant of the query with more instantiation targets (witness constants and index terms for the
+	// universal assumptions) runs alongside: more instances help some obligations and slow down others
+	nrace := len(race)
+	var file2 string
+	if o.Quant {
+		o.instLevel = 1
+		t2 := o.SMT(true)
+		o.instLevel = 0
+		if t2 != text {
+			file2 = strings.TrimSuffix(file, ".smt2") + ".more.smt2"
+			os.WriteFile(file2, []byte(t2), 0644)
+			nrace++
+			if !keep {
+				defer os.Remove(file2)
+			}
+		}
+	}
+	ch := make(chan solveResult, nrace)
 	for _, sc := range race {
 		sc := sc
 		go func() { ch <- runSolver(ctx, sc, file, timeoutS) }()
 	}
+	if file2 != "" {
+		go func() { ch <- runSolver(ctx, solvers[1], file2, timeoutS) }()
+	}
 	var last solveResult
 	errs := ""
-	for range race {
+	for i := 0; i < nrace; i++ {
 		r := <-ch
 		switch r.verdict {
 		case "unsat":
